@@ -304,7 +304,10 @@ int print_to_with(var out, int pos, const char* fmt, var args) {
       }
       
       if (strchr("fFeEgGaA", *fmt)) { 
-        int off = format_to(out, pos, fmt_buf, c_float(a));
+        /* With the L modifier the C library fetches a long double */
+        int off = strchr(fmt_buf, 'L')
+          ? format_to(out, pos, fmt_buf, (long double)c_float(a))
+          : format_to(out, pos, fmt_buf, c_float(a));
         if (off < 0) { throw(FormatError, "Unable to output Real!"); }
         pos += off;
       }
@@ -459,7 +462,13 @@ int scan_from_with(var input, int pos, const char* fmt, var args) {
       }
       
       else if (strchr("fFeEgGaA", *fmt)) {
-        if (strchr(fmt_buf, 'l')) {
+        if (strchr(fmt_buf, 'L')) {
+          long double tmp = 0;
+          int err = format_from(input, pos, fmt_buf, &tmp, &off);
+          if (err < 1) { throw(FormatError, "Unable to input Float!"); }
+          pos += off;
+          assign(a, $F((double)tmp));
+        } else if (strchr(fmt_buf, 'l')) {
           double tmp = 0;
           int err = format_from(input, pos, fmt_buf, &tmp, &off);
           if (err < 1) { throw(FormatError, "Unable to input Float!"); }
